@@ -60,6 +60,39 @@ class C20(Property):
             impl[tag] = infra.run_driver(lines, driver=self.drivers[tag], tag="d" + tag)
         # the generic flow indexes impl by case id: keep the reference build there, the rest aside
         self.by_build = impl
+        # OptionParser::run() in a real process with piped streams and NO_COLOR: what print_message writes must be the
+        # same bytes whatever the build (colours are not wanted here, so the colour builds fall back to monochrome)
+        import os, subprocess
+        work = os.path.join(infra.CACHE, "work")
+        os.makedirs(work, exist_ok=True)
+        env = {k: v for k, v in os.environ.items() if not (k.startswith("BPAF_") or k.startswith("VT_"))}
+        sample = [c for c in cases if getattr(c, "opts", None) is not None][::max(1, len(cases) // 60)]
+
+        def spawn(job):
+            c, tag, nocolor = job
+            path = os.path.join(work, "c20_%d_%s_%s.case" % (os.getpid(), c.id, tag))
+            with open(path, "w") as f:
+                f.write(c.line())
+            e = dict(env, VERIF_CHILD_CASE_FILE=path)
+            e.pop("NO_COLOR", None)
+            e.pop("CLICOLOR_FORCE", None)
+            e.pop("FORCE_COLOR", None)
+            if nocolor:
+                e["NO_COLOR"] = "1"
+            try:
+                p = subprocess.run(["app"] + list(c.argv), executable=self.drivers[tag], env=e, stdout=subprocess.PIPE,
+                                   stderr=subprocess.PIPE, stdin=subprocess.DEVNULL, timeout=20)
+                r = (p.returncode, p.stdout, p.stderr)
+            except subprocess.TimeoutExpired:
+                r = ("HANG", b"", b"")
+            except (OSError, ValueError) as ex:
+                r = ("SPAWN", str(ex).encode(), b"")
+            os.unlink(path)
+            return (c.id, tag), r
+        jobs = [(c, tag, i % 2 == 0) for i, c in enumerate(sample) for tag in ("none", "dull", "bright")]
+        with ThreadPoolExecutor(infra.NPROC) as ex:
+            self.children = dict(ex.map(spawn, jobs))
+        self.sample = sample
         return model, impl["full"]
 
     def judge(self, cases, model, impl):
@@ -77,11 +110,24 @@ class C20(Property):
                 if other != ref:
                     out.append(Finding("violation", c, "builds `none` and `%s` differ: %s  vs  %s" % (tag, common.show(ref), common.show(other))))
                     break
+        for c in self.sample:
+            ref = self.children.get((c.id, "none"))
+            if ref is None or ref[0] == "SPAWN":
+                continue
+            dist["child_processes"] = dist.get("child_processes", 0) + 1
+            for tag in ("dull", "bright"):
+                other = self.children.get((c.id, tag))
+                if other != ref:
+                    out.append(Finding("violation", c, "a real process with piped streams prints different bytes in builds `none` and "
+                                                       "`%s` (colours are not wanted there): %r  vs  %r" % (tag, ref, other)))
+                    break
         stats = {"nontrivial_ids": nontrivial, "distribution": dist,
                  "rule": "one seeded corpus (random definitions of every shape, sentences, mutations, help/version requests, a few "
                          "ambiguous short names and fenced code blocks in help) run by the SAME harness built against /repo with "
                          "feature sets none / autocomplete / autocomplete+docgen+batteries / dull-color / bright-color; outcome "
-                         "lines (class, value, monochrome help and error text) compared pairwise"}
+                         "lines (class, value, monochrome help and error text) compared pairwise; a sample of the corpus also "
+                         "through OptionParser::run() in child processes of the none/dull/bright builds with piped streams "
+                         "(every other one with NO_COLOR=1): exit status, stdout and stderr bytes compared"}
         return out, stats
 
     def known_class(self, cls, f):
